@@ -241,3 +241,15 @@ Proof.
     split; [rewrite Hv; reflexivity|]. split; [|intros _; split; reflexivity].
     intros s Hsp. rewrite (signed_portion_data_view _ _ Hs), I23 in Hsp. discriminate.
 Qed.
+
+(* certificates declare the same order as Data *)
+Lemma cert_layout_is_data : Generated.Schemas.security_v2_CertificateV2Value_layout = LD.
+Proof. reflexivity. Qed.
+
+Theorem ptrs_cert_spec v sel p :
+  strict_split (S (length v)) v = Some sel ->
+  ptrs_data_with Generated.Schemas.security_v2_CertificateV2Value_layout v = Ok p ->
+  p_sig_value p = value_of_type (S (length v)) 23 v /\
+  (forall s, signed_portion_data v = Some s -> concat (p_sig_covered p) = s) /\
+  (value_of_type (S (length v)) 23 v = None -> p_sig_covered p = [] /\ p_sig_value p = None).
+Proof. rewrite cert_layout_is_data. apply ptrs_data_spec. Qed.
